@@ -62,7 +62,10 @@ class DiagnosticStatusRequest(ModbusRequest):
 
         :param data: The data to decode into the function code
         '''
-        self.sub_function_code, self.message = struct.unpack('>HH', data)
+        words = struct.unpack('>' + 'H' * (len(data) // 2), data)
+        self.sub_function_code = words[0]
+        # one data word is kept as an int, Return Query Data may carry several
+        self.message = words[1] if len(words) == 2 else list(words[1:])
     
     def get_response_pdu_size(self):
         """
